@@ -19,14 +19,37 @@ Rows(n, den) == [1..n -> Units(den)]
 (* ------------------------------------------------------------------ part "flat" *)
 \* a block of cases: size n, A answer lists, credits k/den, which flags, which leading rows (a set of row sequences),
 \* lite = TRUE: enumerated for the replay with the core laws only (the other laws are checked on the smaller blocks)
-Blk(n, A, den, ords, pcs, heads, lite) == [n |-> n, A |-> A, den |-> den, ords |-> ords, pcs |-> pcs, heads |-> heads, lite |-> lite]
+Blk(n, A, den, ords, pcs, heads, lite) == [n |-> n, A |-> A, den |-> den, ords |-> ords, pcs |-> pcs, heads |-> heads, lite |-> lite,
+                                         pal |-> [k \in 1..(den + 1) |-> k - 1]]      \* palette: the unit values a credit may take
 AllHeads(n, den) == {<<r>> : r \in Rows(n, den)}
 \* first row non-decreasing: one representative per renumbering of the answers
 SortedRows(n, den) == {x \in Rows(n, den) : \A i \in 1..(n - 1) : x[i] <= x[i + 1]}
 SortedHeads(n, den) == {<<r>> : r \in SortedRows(n, den)}
 PairHeads4 == {<<r1, r2>> : r1 \in {<<0, 1, 1, 0>>, <<1, 1, 0, 1>>}, r2 \in {<<1, 0, 1, 0>>, <<0, 0, 1, 1>>, <<1, 1, 1, 1>>, <<0, 1, 0, 0>>}}
 PairHeads3 == {<<r1, r2>> : r1 \in SortedRows(3, 1), r2 \in {<<0, 1, 0>>, <<1, 0, 1>>, <<1, 1, 0>>, <<0, 0, 1>>}}
-FlatBlocks ==
+\* finely graduated credits, in thousandths: values closer than 0.005 and sums that differ only after adding several cells
+\* (the statement quantifies over ANY credits; a solver working on rounded costs would merge them)
+Fine3 == <<115, 125, 130>>
+Fine4 == <<115, 125, 128, 130>>
+PalRows(n, pal) == [1..n -> Range(pal)]
+FineBlk(n, A, pal, ords, pcs, heads, lite) == [Blk(n, A, 1000, ords, pcs, heads, lite) EXCEPT !.pal = pal]
+FineHeads3 == {<<<<115, 125, 130>>>>, <<<<125, 125, 130>>>>, <<<<115, 115, 125>>>>}
+FineHeads4 == {<<r1, r2, r3>> : r1 \in {<<115, 125, 130, 125>>, <<125, 130, 115, 115>>}, r2 \in {<<130, 125, 125, 115>>, <<125, 115, 130, 130>>},
+                                r3 \in {<<125, 125, 115, 130>>, <<115, 130, 125, 125>>, <<130, 115, 125, 125>>}}
+FineBlocks ==
+  IF Tier = "quick" THEN
+    { FineBlk(2, 1, Fine4, {FALSE}, BOOLEAN, {<<r>> : r \in PalRows(2, Fine4)}, FALSE),
+      FineBlk(2, 2, <<125, 130>>, {FALSE}, {TRUE}, {<<r>> : r \in PalRows(2, <<125, 130>>)}, FALSE),
+      FineBlk(3, 1, Fine3, {FALSE}, {TRUE}, FineHeads3, TRUE),
+      FineBlk(4, 1, Fine3, {FALSE}, {TRUE}, FineHeads4, TRUE) }
+  ELSE
+    { FineBlk(2, 1, Fine4, BOOLEAN, BOOLEAN, {<<r>> : r \in PalRows(2, Fine4)}, FALSE),
+      FineBlk(2, 2, Fine3, {FALSE}, {TRUE}, {<<r>> : r \in PalRows(2, Fine3)}, TRUE),
+      FineBlk(3, 1, Fine3, {FALSE}, BOOLEAN, {<<r>> : r \in {x \in PalRows(3, Fine3) : x[1] <= x[2] /\ x[2] <= x[3]}}, TRUE),
+      FineBlk(3, 1, Fine3, {FALSE}, {TRUE}, FineHeads3, FALSE),
+      FineBlk(4, 1, Fine3, {FALSE}, BOOLEAN, FineHeads4, TRUE),
+      FineBlk(4, 1, <<124, 127>>, {FALSE}, {TRUE}, {<<r1, r2>> : r1 \in {<<124, 127, 127, 124>>}, r2 \in PalRows(4, <<124, 127>>)}, TRUE) }
+CoarseBlocks ==
   IF Tier = "quick" THEN
     { Blk(2, 1, 2, BOOLEAN, BOOLEAN, AllHeads(2, 2), FALSE),
       Blk(2, 2, 2, {FALSE}, {TRUE}, SortedHeads(2, 2), FALSE),
@@ -47,9 +70,11 @@ FlatBlocks ==
       Blk(4, 1, 1, {FALSE}, {TRUE}, PairHeads4, FALSE),
       Blk(4, 1, 1, {FALSE}, {FALSE}, SortedHeads(4, 1), TRUE),
       Blk(4, 1, 1, {TRUE}, {FALSE}, SortedHeads(4, 1), TRUE) }
-FlatSeeds == UNION {[kind : {"seed"}, n : {b.n}, A : {b.A}, den : {b.den}, ordered : b.ords, pc : b.pcs, head : b.heads, lite : {b.lite}] : b \in FlatBlocks}
+FlatBlocks == CoarseBlocks \cup FineBlocks
+FlatSeeds == UNION {[kind : {"seed"}, n : {b.n}, A : {b.A}, den : {b.den}, ordered : b.ords, pc : b.pcs, head : b.heads, lite : {b.lite},
+                     pal : {b.pal}] : b \in FlatBlocks}
 FlatCases(s) == [kind : {"flat"}, n : {s.n}, A : {s.A}, den : {s.den}, ordered : {s.ordered}, pc : {s.pc}, head : {s.head}, lite : {s.lite},
-                 rest : [1..(s.A * s.n - Len(s.head)) -> Rows(s.n, s.den)]]
+                 rest : [1..(s.A * s.n - Len(s.head)) -> PalRows(s.n, s.pal)]]
 UnitTensor(x) == LET rows == x.head \o x.rest IN TLCEval([a \in 1..x.A |-> TLCEval([i \in 1..x.n |-> rows[(a - 1) * x.n + i]])])
 RatTensor(U, den) == TLCEval([a \in 1..Len(U) |-> TLCEval([i \in 1..Len(U[a]) |-> TLCEval([j \in 1..Len(U[a][i]) |-> Q(U[a][i][j], den)])])])
 CfgOf(x) == [ordered |-> x.ordered, pc |-> x.pc]
@@ -120,7 +145,11 @@ NestCases(s) == [kind : {"nested"}, g : {s.g}, outOrd : {s.flags[1]}, inOrd : {s
 \* within its group, nothing against the other answers -- so the credit of cell (k, h) is the sum over the group's
 \* inputs of B[.][h], every value 0..s occurs, and low cell credits decide the pairing of groups with answer slots.
 RectShape(G, s, lay, inOrd, pcIn, den, heads, nrest) ==
-  [G |-> G, s |-> s, lay |-> lay, inOrd |-> inOrd, pcIn |-> pcIn, den |-> den, heads |-> heads, nrest |-> nrest, pcOut |-> TRUE]
+  [G |-> G, s |-> s, lay |-> lay, inOrd |-> inOrd, pcIn |-> pcIn, den |-> den, heads |-> heads, nrest |-> nrest, pcOut |-> TRUE,
+   pal |-> [k \in 1..(den + 1) |-> k - 1]]
+\* two groups of two inputs whose leaf credits are thousandths: the group credits differ by a few thousandths
+FineRect(lay, inOrd) == [RectShape(2, 2, lay, inOrd, TRUE, 1000, {<<<<115, 125>>, <<130, 125>>>>, <<<<125, 130>>, <<125, 115>>>>, <<<<130, 130>>, <<115, 125>>>>}, 2)
+                         EXCEPT !.pal = Fine3]
 NoOuterPartial(x) == [x EXCEPT !.pcOut = FALSE]
 BRows(G, den) == [1..G -> 0..den]
 H2 == {<<<<0, 1>>, <<0, 0>>>>, <<<<1, 0>>, <<0, 1>>>>, <<<<0, 0>>, <<0, 0>>>>, <<<<1, 1>>, <<0, 1>>>>}
@@ -135,7 +164,7 @@ RectShapes ==
       RectShape(2, 3, "block", FALSE, TRUE, 1, H2b, 4), RectShape(2, 3, "block", TRUE, FALSE, 1, H2b, 4),
       RectShape(2, 3, "block", TRUE, TRUE, 2, Hhalf, 2),
       RectShape(2, 4, "block", TRUE, TRUE, 1, H4, 4), RectShape(2, 4, "inter", TRUE, TRUE, 1, {<<<<0, 1>>, <<1, 0>>, <<0, 0>>, <<0, 0>>>>}, 4),
-      RectShape(3, 2, "block", TRUE, TRUE, 1, H3, 3) }
+      RectShape(3, 2, "block", TRUE, TRUE, 1, H3, 3), FineRect("block", TRUE) }
   ELSE
     { RectShape(2, 3, "block", TRUE, TRUE, 1, {<<r>> : r \in BRows(2, 1)}, 5), RectShape(2, 3, "inter", TRUE, TRUE, 1, H2, 4),
       NoOuterPartial(RectShape(2, 3, "block", TRUE, TRUE, 1, H2, 4)), NoOuterPartial(RectShape(2, 4, "block", TRUE, TRUE, 1, H4, 4)),
@@ -143,11 +172,12 @@ RectShapes ==
       RectShape(2, 3, "block", TRUE, TRUE, 2, Hhalf, 2), RectShape(2, 3, "inter", FALSE, TRUE, 2, Hhalf, 2),
       RectShape(2, 4, "block", TRUE, TRUE, 1, {h1 \o h2 : h1 \in H2, h2 \in H2b}, 4), RectShape(2, 4, "inter", TRUE, TRUE, 1, H4, 4),
       RectShape(2, 4, "block", FALSE, TRUE, 1, H4, 4),
-      RectShape(3, 2, "block", TRUE, TRUE, 1, H3, 3), RectShape(3, 2, "inter", FALSE, TRUE, 1, H3, 3) }
+      RectShape(3, 2, "block", TRUE, TRUE, 1, H3, 3), RectShape(3, 2, "inter", FALSE, TRUE, 1, H3, 3),
+      FineRect("block", TRUE), FineRect("inter", FALSE) }
 RectSeeds == UNION {[kind : {"seed"}, G : {x.G}, s : {x.s}, lay : {x.lay}, inOrd : {x.inOrd}, pcIn : {x.pcIn}, den : {x.den},
-                     head : x.heads, nrest : {x.nrest}, pcOut : {x.pcOut}] : x \in RectShapes}
+                     head : x.heads, nrest : {x.nrest}, pcOut : {x.pcOut}, pal : {x.pal}] : x \in RectShapes}
 RectCases(s) == [kind : {"rect"}, G : {s.G}, s : {s.s}, lay : {s.lay}, outOrd : {FALSE}, inOrd : {s.inOrd}, pcOut : {s.pcOut}, pcIn : {s.pcIn},
-                 den : {s.den}, head : {s.head}, rest : [1..s.nrest -> BRows(s.G, s.den)]]
+                 den : {s.den}, head : {s.head}, rest : [1..s.nrest -> [1..s.G -> Range(s.pal)]]]
 RectGrouping(x) == [p \in 1..(x.G * x.s) |-> IF x.lay = "block" THEN ((p - 1) \div x.s) + 1 ELSE ((p - 1) % x.G) + 1]
 \* B = head \o rest has one row per input (were fewer rows enumerated they would repeat cyclically)
 RectTable(x) == LET B == x.head \o x.rest
@@ -248,7 +278,7 @@ LawEvalComplete == IsFlat /\ c.n <= 3 /\ (c.n <= 2 \/ c.den = 1) =>
                IN \A P \in FlatPathSpace : (Eval(t, P).why = "") <=> (P \in ps)
 \* certificates: feasible potentials bound every assignment (soundness), and tight ones exist on the unit grid (completeness)
 PotGrid == [1..c.n -> {Q(k, c.den) : k \in 0..c.den}]
-LawDuality == IsFlat /\ c.n <= 3 /\ (c.n <= 2 \/ c.den = 1) => \A a \in 1..c.A :
+LawDuality == IsFlat /\ c.n <= 3 /\ c.den <= 2 /\ (c.n <= 2 \/ c.den = 1) => \A a \in 1..c.A :
                /\ \A u \in PotGrid : \A v \in PotGrid : Feasible(MR[a], u, v) => Leq(BestTotal(MR[a]), CertTotal([u |-> u, v |-> v]))
                /\ \E u \in PotGrid : \E v \in PotGrid : \E s \in OptAssignments(MR[a]) : CertificateOK(MR[a], [u |-> u, v |-> v, sigma |-> s])
 
